@@ -1248,7 +1248,7 @@ def mark_collections(ip, cls, self_obj):
                 self_obj.attrs[attr] = coll
 
 
-def extract(index, cls, kwargs=None, method='elaborate', collections=True):
+def extract(index, cls, kwargs=None, method='elaborate', collections=True, platform=None):
     """Build the ModuleIR of `cls` (a ClassInfo): run __init__ abstractly (constructor arguments not
     given in `kwargs` take their defaults, required ones become symbolic `self.<attr>` objects), then
     the elaborate method."""
@@ -1271,8 +1271,11 @@ def extract(index, cls, kwargs=None, method='elaborate', collections=True):
     if el is None:
         raise AnalysisError('anchor vanished: %s.%s' % (cls.name, method))
     fr = FuncRef(el[1], el[0].mod, closure=None, self_obj=self_obj, cls=el[0], name=method)
-    plat = Obj(None, leaf='platform')
-    plat.named = True
+    if platform == 'symbolic':
+        plat = Obj(None, leaf='platform')
+        plat.named = True
+    else:
+        plat = None          # like the test suite: elaborate(platform=None)
     ip.callstack = []
     ir.result = ip.call_func(fr, [plat] if len(el[1].args.args) > 1 else [], {}, None)
     for si in ip._siglist:
